@@ -1,5 +1,6 @@
 import Enc.Lemmas.ProtoScanSpec
 import Enc.Lemmas.ProtoLiberalConv
+import Enc.Lemmas.ProtoDepth
 /-!
 # Lemmas for C07 — `Scan` and `Unmarshal` walk the same top-level fields
 
@@ -43,12 +44,12 @@ theorem fields_step (ptag p m : Bytes) (tagN : Nat) (wv : WireVal) (htok : VTok 
 def ScanOK (f : Nat) : Prop :=
   ∀ (fs : Fields) (fl : Flags) (b : Bytes) (lenB off : Nat) (vs : Vals) (R : Vals × Nat),
     tyOK (.struct fs) = true → fl.zigzag = false → lenB = off + b.length → GoLen b →
-    decodeStruct f (fieldsOf 1 fs) b lenB vs fl off = .ok R → (fields b).2 = .ok ()
+    decodeStructU f (fieldsOf 1 fs) b lenB vs fl off = .ok R → (fields b).2 = .ok ()
 
 theorem scan_step (f : Nat) (ih : ∀ f', f' < f → ScanOK f') : ScanOK f := by
   intro fs fl b lenB off vs R hty hfl hL hgo h
   cases f with
-  | zero => simp [decodeStruct] at h
+  | zero => simp [decodeStructU] at h
   | succ f1 =>
   rw [decodeStruct_succ] at h
   by_cases hb : b = []
@@ -136,25 +137,34 @@ theorem scan_all (f : Nat) : ScanOK f := by
   induction f using Nat.strongRecOn with
   | _ f ih => exact scan_step f ih
 
-/-- **Unmarshal succeeds ⇒ Scan succeeds** (message types of the C12 universe) -/
-theorem scan_of_unmarshal (fs : Fields) (hty : tyOK (.struct fs) = true) (b : Bytes) (hb : GoLen b) (v : Val)
-    (h : unmarshal (.struct fs) b = .ok v) : (scanList b).2 = .ok () := by
+/-- the decoder without the nesting counter (`unmarshalU`) succeeds ⇒ Scan succeeds -/
+theorem scan_of_unmarshalU (fs : Fields) (hty : tyOK (.struct fs) = true) (b : Bytes) (hb : GoLen b) (v : Val)
+    (h : unmarshalU (.struct fs) b = .ok v) : (scanList b).2 = .ok () := by
   rw [scanList_eq_fields]
-  unfold unmarshal at h
+  unfold unmarshalU at h
   by_cases hbn : b = []
   · subst hbn; rw [fields_nil]
   · have hbe : b.isEmpty = false := by cases b <;> simp_all
     simp only [hbe, Bool.false_eq_true, if_false, codecOf, zeroOf] at h
     generalize 2 * b.length + 8 + Codec.height (Codec.struct (fieldsOf 1 fs)) = FUEL at h
     cases FUEL with
-    | zero => simp [decode] at h
+    | zero => simp [decodeU] at h
     | succ f =>
       rw [decode_struct_succ] at h
-      cases hds : decodeStruct f (fieldsOf 1 fs) b b.length (zeroFields fs)
+      cases hds : decodeStructU f (fieldsOf 1 fs) b b.length (zeroFields fs)
           { ({ toplevel := true } : Flags) with toplevel := false } 0 with
       | err e => simp [hds, Res.bind] at h
       | panic e => simp [hds, Res.bind] at h
       | ok R => exact scan_all f fs _ b b.length 0 (zeroFields fs) R hty rfl (by omega) hb hds
+
+/-- **Unmarshal succeeds ⇒ Scan succeeds** (message types of the C12 universe). About the REAL decoder, with its
+nesting counter: whenever it succeeds it agrees with the unlimited one (`unmarshal_eq_or_deep`), so no depth
+hypothesis is needed. -/
+theorem scan_of_unmarshal (fs : Fields) (hty : tyOK (.struct fs) = true) (b : Bytes) (hb : GoLen b) (v : Val)
+    (h : unmarshal (.struct fs) b = .ok v) : (scanList b).2 = .ok () := by
+  rcases Lemmas.ProtoDepth.unmarshal_eq_or_deep (.struct fs) b with he | he
+  · rw [he] at h; exact scan_of_unmarshalU fs hty b hb v h
+  · rw [he] at h; simp at h
 
 /-! ## a concrete message type for the non-vacuity examples of Props/C07 -/
 
